@@ -136,6 +136,22 @@ func (r *Recorder) Release(insert func(i int) []Ev) {
 	}
 }
 
+// TakeHeld returns the held events without writing them and ends Hold mode.
+func (r *Recorder) TakeHeld() []Ev {
+	r.mu.Lock()
+	defer r.mu.Unlock()
+	held := r.Evs
+	r.Evs = nil
+	r.Hold = false
+	r.N -= len(held)
+	for _, e := range held {
+		if op, ok := e["op"].(string); ok {
+			r.Cnt[op]--
+		}
+	}
+	return held
+}
+
 // Close flushes the trace.
 func (r *Recorder) Close() error {
 	r.mu.Lock()
